@@ -14,6 +14,10 @@ def vm(profile, qn, tn, extra=None):
 EXPORT = chain("export", 48, 480, ops=100, tops=200)
 # the real mint.BeginBlocker against Model/Mint.lean on states reached by shield and staking histories (C01, C02, C08)
 MINT = chain("mint", 48, 480, ops=60, tops=120)
+# the real DelayUnbonding / PayFromUnbondings / staking end-blocker completion against Model/UbdQueue.lean on states reached by shield
+# and staking histories, after undelegations through the real keeper onto a small grid of completion times (C09, C04)
+UBDQ = chain("ubdqueue", 64, 640, ops=80, tops=160)
+UBDQ_ASSUME = "the unbonding queue (Props/C09q): DelayUnbonding, PayFromUnbondings and the end-blocker's completion are modelled in Model/UbdQueue.lean on the pair of stores (unbonding delegations, completion queue); creation height and initial balance of an entry, the maximum number of entries per pair and the coins of the not-bonded pool are left out; the engine 'ubdqueue' calls the real functions in a discarded cache context on populations built by the real Undelegate at chosen block times"
 MINT_ASSUME = "the size of the block provision (the SDK minter's inflation and annual provisions) is an input of the mint model; the monitor supply_grows_by_the_provision restates BlockProvision = annual provisions / blocks per year on the observation"
 
 VM_ENGINES = [vm("ops", 16000, 320000), vm("structured", 16000, 320000), vm("raw", 16000, 320000), vm("calls", 16000, 320000), vm("create", 1600, 16000)]
@@ -40,9 +44,9 @@ PROPS = {
     "C02": dict(SHIELD, lean=["Shentu.Props.C02", "Shentu.Props.C04b", "Shentu.Props.C01m", "Shentu.Props.ShieldTie"], engines=SHIELD["engines"] + [chain("payout", 64, 640, ops=120, tops=200), MINT],
                 assumptions=SHIELD["assumptions"] + [MINT_ASSUME]),
     "C03": dict(SHIELD, lean=["Shentu.Props.C03a", "Shentu.Props.C03b", "Shentu.Props.ShieldTie"]),
-    "C04": dict(SHIELD, lean=["Shentu.Props.C04", "Shentu.Props.C04b", "Shentu.Props.C04c", "Shentu.Props.ShieldTie"],
-                engines=SHIELD["engines"] + [chain("payout", 64, 640, ops=120, tops=200)],
-                assumptions=SHIELD["assumptions"] + [
+    "C04": dict(SHIELD, lean=["Shentu.Props.C04", "Shentu.Props.C04b", "Shentu.Props.C04c", "Shentu.Props.C09q", "Shentu.Props.ShieldTie"],
+                engines=SHIELD["engines"] + [chain("payout", 64, 640, ops=120, tops=200), UBDQ],
+                assumptions=SHIELD["assumptions"] + [UBDQ_ASSUME,
         "'taken from its bonded or unbonding stake': in the shield model the coins move from the staking pools in one step; how the code takes them (split, pro-rata loop, shares rounded up, unbonding entries) is Model/Payout.lean, run against the real keeper's MakePayoutByProviderDelegations by the engine 'payout' on states reached by shield histories, after random slashes and undelegations in a discarded cache context"]),
     "C05": dict(SHIELD, lean=["Shentu.Props.C05", "Shentu.Props.ShieldTie"]),
     "C06": dict(SHIELD, lean=["Shentu.Props.C06", "Shentu.Props.ShieldTie"], assumptions=SHIELD["assumptions"] + [
@@ -59,12 +63,12 @@ PROPS = {
                         "mint: the split of the block provision cannot fail when the two ratios (community pool / supply, stake-for-shield pool / supply) are non-negative and add up to at most one (C01m.split_ok_of_ratios, and split_panics_iff for the converse); both pools are coins held inside the supply, in different module accounts"],
     },
     "C09": {
-        "lean": ["Shentu.Props.C09"],
-        "engines": [chain("staking", 128, 1280, ops=150, tops=250), chain("shield", 128, 1280, ops=90, tops=160), chain("payout", 48, 480, ops=120, tops=200), EXPORT],
+        "lean": ["Shentu.Props.C09", "Shentu.Props.C09q"],
+        "engines": [chain("staking", 128, 1280, ops=150, tops=250), chain("shield", 128, 1280, ops=90, tops=160), chain("payout", 48, 480, ops=120, tops=200), UBDQ, EXPORT],
         "trusted": ["modelled, not verified: the Cosmos SDK staking keeper (power index, unbonding queues, slashing), baseapp, Tendermint; the model is the specification of what consensus must see, compared on every block with the updates the real application returns from EndBlock",
                     "the consensus view is accumulated by the harness from the EndBlock responses, starting from the bonded validators of genesis"],
         "assumptions": ["consensus public keys are unique among validators (refused otherwise by the SDK)", "power reduction 10^6 (the default)", "a tie in power exactly at the last seat is not decided by the monitor (counted as sit.c09.tie_at_the_cut)",
-                        "genesis does not bond more validators than MaxValidators", "claim locks and payouts may postpone or shrink unbonding entries (shield profile): only 'never earlier' is checked there"],
+                        "genesis does not bond more validators than MaxValidators", "claim locks and payouts may postpone or shrink unbonding entries (shield profile): only 'never earlier' is checked there", UBDQ_ASSUME],
     },
     "C10": {
         "lean": ["Shentu.Props.C10", "Shentu.Props.C20order"],
@@ -75,7 +79,7 @@ PROPS = {
                         "nodes are compared in one process (Go randomises every map iteration, so two instances in one process do see different orders)"],
     },
     "C20": {
-        "lean": ["Shentu.Props.C20", "Shentu.Props.C20order"],
+        "lean": ["Shentu.Props.C20", "Shentu.Props.C20order", "Shentu.Props.C20G", "Shentu.Props.C20GCert", "Shentu.Props.C20GGov"],
         "engines": [chain("export", 96, 960, ops=100, tops=200)],
         "trusted": SDK_TRUST + ["the comparison of the original and the imported node is made by the harness on the modules' exported genesis JSON and the harness's observations (bank, vesting, oracle, shield, gov, cert, cvm, staking, distribution); SDK modules without observers (slashing, mint, upgrade, evidence, ibc, crisis) are compared through the re-export only"],
         "assumptions": ["Tendermint's convention: the state exported after block H is imported as the start of block H+1; height-indexed oracle deadlines move by that one block, and a task that was pending at the export is then aggregated one block later (its outcome may differ through what happens in that block: only collateral and withdrawals are compared for such histories)",
